@@ -120,6 +120,15 @@ class Counter:
         self.in_backend = 0         # > 0 while a back-end call (minimize / linprog) is on the stack
         self.fired_in_backend = None
 
+    def reset(self, plan=None):
+        """a new solve of the same history: wrappers installed by earlier solves (closures kept in the problem's caches)
+        stay attached to this counter and are fault points of the later solves too"""
+        self.counts = {}
+        self.plan = plan or {}
+        self.fired = []
+        self.in_backend = 0
+        self.fired_in_backend = None
+
     def wrap(self, kind, fn):
         if fn is None or not callable(fn):
             return fn
@@ -277,9 +286,22 @@ def check_fault(pname, method, faults, rep=None, want=None, followups=None):
     show0 = warnings.showwarning
     lim0 = sys.getrecursionlimit()
     filters0 = list(warnings.filters)
+    counter = Counter()
     for (m, kind, k, cname) in faults:
+        if kind == "ok":
+            # an unfaulted solve first: the faulted one then meets a WARM problem (caches, memos, compiled closures)
+            counter.reset({})
+            try:
+                with warnings.catch_warnings():
+                    warnings.simplefilter("ignore")
+                    solve_with(P, m, counter, retry=(pname == "retry"))
+            except Exception:
+                pass
+            if rep:
+                rep.transitions += 1
+            continue
         exc = {c.__name__: c for c in CLASSES}[cname]("injected fault")
-        counter = Counter({} if kind == "entry" else {kind: (k, exc)})
+        counter.reset({} if kind == "entry" else {kind: (k, exc)})
         outcome = None
         try:
             # no warnings.catch_warnings() here: its __exit__ would restore showwarning and mask a leak
@@ -432,6 +454,23 @@ def explore(item, tier, seed):
                 if kk not in seen:
                     seen.add(kk)
                     rep.violation(kk, {"mode": "fault", "problem": pname, "faults": faults}, **d)
+    # WARM histories: an unfaulted solve, then a solve faulted at the first / second call of every callback kind
+    warm = [(kind, k, cls) for kind in sorted(counts) if not kind.startswith("build:")
+            for k in ((1, 2) if tier == "quick" else ks_for(min(counts[kind], 4), "thorough"))
+            for cls in (CLASSES if tier == "thorough" else (ValueError, KeyboardInterrupt))]
+    warm.append(("entry", 1, ValueError))
+    for j, (kind, k, cls) in enumerate(warm):
+        if j % nparts != part or (pname == "deep-nlp" and tier == "quick" and k != 1):
+            continue
+        faults = [(method, "ok", 0, "-"), (method, kind, k, cls.__name__)]
+        fs = check_fault(pname, method, faults, rep, followups=(method,) if tier == "quick" else None)
+        rep.states += 1
+        rep.nt((pname, tuple(faults)))
+        seen = set()
+        for kk, d in fs:
+            if kk not in seen:
+                seen.add(kk)
+                rep.violation(kk + ":warm", {"mode": "fault", "problem": pname, "faults": faults}, **d)
     if tier == "thorough" and part == 0 and pname != "deep-nlp":
         # two faults: solve 1 faulted at k1, solve 2 (possibly another method) faulted at k2
         for kind1, K1 in sorted(counts.items()):
@@ -458,13 +497,17 @@ def culprit(v):
     if c["mode"] == "recursion":
         return {"kind": v["kind"], "mode": "recursion"}
     f = c["faults"]
-    return {"kind": v["kind"], "problem": c["problem"], "method": f[0][0], "callback": f[0][1], "class": f[0][3],
-            "n_faults": len(f)}
+    real = [x for x in f if x[1] != "ok"]
+    return {"kind": v["kind"], "problem": c["problem"], "method": f[0][0], "callback": real[0][1], "class": real[0][3],
+            "n_faults": len(real)}
 
 
 def replay(art):
     c = art["violation"]["case"]
     if c["mode"] == "recursion":
         return [{"kind": k, "detail": d} for k, d in check_recursion(Report())]
-    fs = check_fault(c["problem"], c["faults"][0][0], [tuple(f) for f in c["faults"]], None, want=art["culprit"]["kind"])
-    return [{"kind": k, "detail": d} for k, d in fs]
+    warm = any(f[1] == "ok" for f in c["faults"])
+    want = art["culprit"]["kind"]
+    fs = check_fault(c["problem"], c["faults"][0][0], [tuple(f) for f in c["faults"]], None,
+                     want=want[:-len(":warm")] if warm and want.endswith(":warm") else want)
+    return [{"kind": k + (":warm" if warm else ""), "detail": d} for k, d in fs]
